@@ -49,6 +49,8 @@ fn main() {
         "C01" => props::c01::run_c01(&cx),
         "C02" => props::c01::run_c02(&cx),
         "C15" => props::c01::run_c15(&cx),
+        "C05" => props::c05::run_c05(&cx),
+        "C09" => props::c05::run_c09(&cx),
         other => {
             eprintln!("unknown property {}", other);
             2
@@ -59,7 +61,7 @@ fn main() {
 
 fn replay(case: &frmc_core::json::J) -> i32 {
     match case.str_of("kind").as_str() {
-        "refsweep" | "shadow" => refsweep::replay(case),
+        "refsweep" | "shadow" | "c05" | "c09" => refsweep::replay(case),
         k => {
             eprintln!("unknown replay kind {:?}", k);
             2
